@@ -68,6 +68,11 @@ impl<R: Read + Seek> ReadBox<&mut R> for TrafBox {
                 ));
             }
 
+            // Break if size zero BoxHeader, which can result in dead-loop.
+            if s == 0 {
+                break;
+            }
+
             match name {
                 BoxType::TfhdBox => {
                     tfhd = Some(TfhdBox::read_box(reader, s)?);
